@@ -1646,6 +1646,122 @@ def ehist_history_case(ctx, cfg, case):
         ctx.violation('harness.ehist_history_case', 'crash-' + type(ex).__name__, repr(ex)[:300], case=cdesc)
 
 
+# ---------------------------------------------------------------------------- constructor arguments are not aliased
+
+def alias_case(ctx, cfg):
+    """DETERMINISTIC: every ndarray handed to a binning / PDF constructor (float64 edges buffers included) is
+    overwritten in place by the caller afterwards; every observable of the object must stay what it was."""
+    from skyllh.core.binning import BinningDefinition
+    from skyllh.i3.pdf import I3EnergyPDF
+    from skyllh.i3.backgroundpdf import BackgroundI3SpatialPDF
+    from skyllh.core.smoothing import BlockSmoothingFilter
+    ctx.count('alias-case')
+    case = {'kind': 'alias'}
+    ctx.case(case)
+    try:
+        for smooth in (0, 1):
+            eE = np.array([1.0, 1.5, 2.5, 3.0, 4.0, 6.0])           # float64 buffers owned by the caller
+            eS = np.array([-1.0, -0.25, 0.5, 1.0])
+            le = np.array([1.2, 1.7, 2.0, 2.9, 3.5, 5.0, 6.0, 1.0, 2.6, 4.4, 1.6, 3.2])
+            sd = np.array([-0.9, -0.5, 0.0, 0.4, 0.7, 1.0, -1.0, 0.6, -0.3, 0.2, 0.9, -0.7])
+            mcw = np.array([1.0, 2.0, 0.5, 1.5, 1.0, 3.0, 1.0, 2.5, 1.0, 0.5, 2.0, 1.0])
+            phw = np.array([1.0, 0.5, 1.0, 0.0, 1.0, 0.25, 1.0, 1.0, 0.75, 1.0, 0.5, 1.0])
+            bE = BinningDefinition('log_energy', eE)
+            bS = BinningDefinition('sin_dec', eS)
+            for nm, b, src in (('log_energy', bE, eE), ('sin_dec', bS, eS)):
+                if np.shares_memory(b.binedges, src):
+                    ctx.violation('BinningDefinition.binedges', 'aliases-caller-array',
+                                  f'the {nm} BinningDefinition shares memory with the ndarray it was built from',
+                                  case=dict(case, binning=nm), predicate='constructor arguments are copied')
+            filt = BlockSmoothingFilter(1) if smooth else None
+            with np.errstate(all='ignore'), warnings.catch_warnings():
+                warnings.simplefilter('ignore')
+                pdf = I3EnergyPDF(cfg=cfg, pmm=None, data_log10_energy=le, data_sin_dec=sd, data_mcweight=mcw,
+                                  data_physicsweight=phw, log10_energy_binning=bE, sin_dec_binning=bS, smoothing_filter=filt)
+            w0 = np.diff(eE).copy()
+            tx = np.array([1.0, 1.25, 1.5, 2.75, 3.9, 6.0, 5.0])
+            ty = np.array([-1.0, 0.0, 0.5, 0.9, 1.0, -0.3, 0.49])
+            def observe():
+                t = real_tdm(log_energy=tx.copy(), sin_dec=ty.copy(), dec=np.zeros(len(tx)))
+                pdf.assert_is_valid_for_trial_data(t)
+                return (np.array(pdf.get_pd(t)[0], copy=True), np.array(pdf.hist, copy=True),
+                        np.array(pdf.get_binning('log_energy').binedges, copy=True),
+                        np.array(pdf.get_binning('sin_dec').binedges, copy=True),
+                        (pdf.axes['log_energy'].vmin, pdf.axes['log_energy'].vmax))
+            o1 = observe()
+            # the caller re-uses its buffers (e.g. one edges buffer re-filled per season)
+            eE[:] = np.linspace(1.0, 6.3, len(eE))
+            eS[:] = np.array([-1.0, -0.5, 0.25, 1.0])
+            le[:] = 2.0
+            sd[:] = 0.0
+            mcw[:] = 7.0
+            phw[:] = 0.0
+            if filt is not None:
+                filt.axis_kernel_array[:] = 5.0
+            o2 = observe()
+            names = ['get_pd', 'hist', 'log_energy edges', 'sin_dec edges', 'log_energy axis']
+            for nm, a, b in zip(names, o1, o2):
+                if not beq(np.asarray(a, dtype=np.float64), np.asarray(b, dtype=np.float64)):
+                    ctx.violation('I3EnergyPDF', 'changed-by-caller-writing-into-constructor-argument',
+                                  f'{nm} changed after the caller overwrote the arrays it had passed to the constructors '
+                                  f'(smoothing={smooth})', case=dict(case, observable=nm, smooth=smooth),
+                                  impl=np.asarray(b, dtype=np.float64).ravel()[:8].tolist(),
+                                  model=np.asarray(a, dtype=np.float64).ravel()[:8].tolist(),
+                                  predicate='an object is a function of the values it was constructed from')
+            # band integrals with the bin widths the object itself reports (the lookup binning)
+            if not smooth:
+                wl = np.diff(pdf.get_binning('log_energy').binedges)
+                for j in range(pdf.hist.shape[1]):
+                    col = pdf.hist[:, j]
+                    if np.all(np.isfinite(col)):
+                        tot = float(np.sum(col * wl))
+                        if not abs(tot - 1.0) <= 1e-9:
+                            ctx.violation('I3EnergyPDF.hist', 'band-not-normalised-for-lookup-binning',
+                                          f'band {j}: sum h_i * (width of the bin get_pd looks up) = {tot!r}',
+                                          case=dict(case, band=j), impl=tot,
+                                          predicate='the histogram is normalised w.r.t. the binning used by get_pd')
+                if not beq(wl, w0):
+                    ctx.violation('BinningDefinition.binedges', 'changed-by-caller-writing-into-constructor-argument',
+                                  'the bin widths of the registered binning changed', case=case)
+        # spatial PDF + its binning
+        eS = np.array([-1.0, -0.5, 0.0, 0.5, 1.0])
+        xs = np.array([-0.9, -0.7, -0.4, -0.1, 0.2, 0.3, 0.6, 0.8, 1.0, -1.0])
+        ws = np.array([1.0, 2.0, 1.0, 0.5, 1.5, 1.0, 2.0, 1.0, 1.0, 0.5])
+        bS = BinningDefinition('sin_dec', eS)
+        with np.errstate(all='ignore'), warnings.catch_warnings():
+            warnings.simplefilter('ignore')
+            sp = BackgroundI3SpatialPDF(cfg=cfg, data_sin_dec=xs, data_weights=ws, sin_dec_binning=bS, spline_order_sin_dec=2)
+        q = np.array([-0.95, -0.75, -0.2, 0.1, 0.75, 0.99])
+
+        def obs_sp():
+            t = TDM(sin_dec=q.copy())
+            sp.initialize_for_new_trial(t)
+            return (np.array(sp.get_pd(t)[0], copy=True), np.array(sp._orig_hist, copy=True),
+                    np.array(sp.get_binning('sin_dec').binedges, copy=True))
+        s1 = obs_sp()
+        evs = np.zeros(3, dtype=[('sin_dec', np.float64)])
+        evs['sin_dec'] = [-0.6, 0.1, 0.9]
+        sp.add_events(evs)
+        sa = obs_sp()
+        eS[:] = np.array([-1.0, -0.6, 0.1, 0.4, 1.0])
+        xs[:] = 0.0
+        ws[:] = 3.0
+        evs['sin_dec'] = 0.0
+        sb = obs_sp()
+        sp.reset()
+        s2 = obs_sp()
+        for tag, a, b in (('after add_events', sa, sb), ('after reset', s1, s2)):
+            for nm, u, v in zip(['get_pd', '_orig_hist', 'sin_dec edges'], a, b):
+                if not beq(u, v):
+                    ctx.violation('BackgroundI3SpatialPDF', 'changed-by-caller-writing-into-constructor-argument',
+                                  f'{nm} ({tag}) changed after the caller overwrote the arrays it had passed in',
+                                  case=dict(case, observable=nm), impl=np.asarray(v).ravel()[:8].tolist(),
+                                  model=np.asarray(u).ravel()[:8].tolist(),
+                                  predicate='an object is a function of the values it was constructed from')
+    except Exception as ex:
+        ctx.violation('harness.alias_case', 'crash-' + type(ex).__name__, repr(ex)[:300], case=case)
+
+
 # ---------------------------------------------------------------------------- smoothing
 
 def smooth_big_case(ctx, rng):
@@ -1791,6 +1907,7 @@ def run_cases(ctx, tcases, hcases, scases, npsf, psf_cases=None, thist=(), shhis
         smooth_case(ctx, ctx.rng, lines, checks)
     if nsmooth:
         smooth_big_case(ctx, ctx.rng)
+        alias_case(ctx, cfg)
     for c in (psf_cases or [None] * npsf):
         psf_case(ctx, cfg, ctx.rng, lines, checks, case=c)
         ctx.case({'psf': ctx.evaluations})
@@ -1889,6 +2006,9 @@ def replay(ctx, rp):
         case = dict(c, ev=[tuple(e) for e in c['ev']])
         case.pop('step', None)
         return run_cases(ctx, [], [], [], 0, shhist=[case])
+    if kind == 'alias':
+        from skyllh.core.config import Config
+        return alias_case(ctx, Config())
     if kind == 'psf':
         return run_cases(ctx, [], [], [], 0, psf_cases=[{k: c[k] for k in ('kind', 'sigma', 'src', 'seed')}])
     ctx.notes.append('replay file has no concrete input (broken obligation): re-running the full check')
